@@ -110,6 +110,7 @@ inductive Path where
   | kronFb (inner : Path)    -- KPADLO whose `_logdet` falls back to `super().inv_quad_logdet(logdet=True)[1]`
   | block (inner : Path) (k : Nat)
   | rep (inner : Path) (baseBatch rep : List Nat)
+  | cat (inner : Path)       -- CatLinearOperator: `super().inv_quad_logdet(...)`, then `.to(device)` on every non-`None` term
   deriving Repr
 
 def numel (s : List Nat) : Nat := s.foldr (· * ·) 1
@@ -177,6 +178,19 @@ def repPost (batch baseBatch rep : List Nat) (rhs : Rhs) (logdet reduce : Bool) 
     | .err => bothErr
     | a => (a, ld')
 
+/-- `CatLinearOperator.inv_quad_logdet`: `r.to(self.device) if r is not None else None` per term — `.to` keeps the kind
+(`torch.empty(0)` stays empty) and the shape; an exception of the base call propagates. -/
+def Term.to : Term → Term
+  | .none => .none
+  | .empty => .empty
+  | .shape s => .shape s
+  | .err => .err
+
+def catPost : Term × Term → Term × Term
+  | (.err, _) => bothErr
+  | (_, .err) => bothErr
+  | (a, b) => (a.to, b.to)
+
 /- A 1-D right-hand side (allowed for unbatched operators only) is treated as a one-column matrix
 (behaviour of notes/C05_fix_2.diff; before it most closed-form classes raised on it). -/
 def shapes : Path → List Nat → Rhs → Bool → Bool → Term × Term
@@ -219,7 +233,11 @@ def shapes : Path → List Nat → Rhs → Bool → Bool → Term × Term
     else
       match rhs with
       | .absent => bothErr                  -- "Either inv_quad_rhs or logdet must be specified"
-      | .vec => if batch = [] then (.shape (if reduce then [] else [1]), .shape []) else bothErr
+      -- `return self.inv_quad(...)` comes BEFORE the dimension checks: a 1-D rhs is accepted on an operator with ONE batch
+      -- dimension too (`_matmul_broadcast_shape` + `expand(*result_shape[:-2], n)` leave it a vector, i.e. one column broadcast
+      -- over the batch); with two or more batch dimensions the `expand` turns it into a `… × n` matrix and the call raises
+      -- (unless n happens to equal the last batch size — finding)
+      | .vec => if batch.length ≤ 1 then (.shape (if reduce then batch else batch ++ [1]), .shape []) else bothErr
       | .mat m => (.shape (if reduce then batch else batch ++ [m]), .shape [])
   | .kron inner, batch, rhs, logdet, reduce =>
     let ld := if logdet then Term.shape batch else .none
@@ -249,5 +267,8 @@ def shapes : Path → List Nat → Rhs → Bool → Bool → Term × Term
     | .vec => bothErr                        -- a BatchRepeat operator always has a batch: explicit dimension check
     | .absent => repPost batch baseBatch rep .absent logdet reduce (shapes inner baseBatch .absent logdet false)
     | .mat m => repPost batch baseBatch rep (.mat m) logdet reduce (shapes inner baseBatch (.mat (m * numel rep)) logdet false)
+  | .cat inner, batch, rhs, logdet, reduce =>
+    -- `tuple(r.to(self.device) if r is not None else None for r in res)`: kinds and shapes are those of the base-class call
+    catPost (shapes inner batch rhs logdet reduce)
 
 end LinOp.C05
